@@ -178,9 +178,18 @@ Definition halted (w : world) : bool :=
   end.
 
 (* after a panic (or fuel exhaustion) nothing further is observed *)
+Definition action_code (a : action) : N :=
+  match a with
+  | AConnect _ => 0 | APublish _ => 1 | ASubscribe _ _ => 2 | AUnsubscribe _ _ => 3 | ADisconnect _ => 4
+  | ADrive => 5 | APoll => 6 | ARecv => 7 | AFeed _ _ => 8 | AAdvance _ => 9 | ADropConn => 10
+  | AHandleDisconnect => 11 | ASetBroker _ => 12 | ASetPid _ => 13
+  end.
+
 Definition step_action (w : world) (a : action) : world :=
   if halted w then w else
-  let w1 := run_action a (upd_waits (upd_log w (s2t "#")) 0) in
+  let marker := s2t "#" ++ show_N (action_code a)
+                ++ match a with APublish r => s2t ":" ++ show_N (qos_n (pr_qos r)) | _ => [] end in
+  let w1 := run_action a (upd_waits (upd_log w marker) 0) in
   if halted w1 then w1 else upd_log w1 (show_state w1).
 
 Definition init_world (c : case) : world :=
